@@ -56,6 +56,7 @@ VTT_LINES = [
     ("<i><v Ann Lee>Whispering</v></i>", "Ann Lee: Whispering"),
     ("...", "..."),
     ("? !", "? !"),
+    ("Ame\u0301lie is 10 \u212b tall", "Ame\u0301lie is 10 \u212b tall"),      # decomposed accent, ANGSTROM SIGN: code points kept
 ]
 VTT_TIMES = [("00:01.000", "00:02.500", S, 2500000), ("00:00:03.000", "00:00:04.000", 3 * S, 4 * S),
              ("01:00:05.250", "01:00:06.000", 3605250000, 3606 * S), ("100:00:07.000", "100:00:08.000", 360007 * S, 360008 * S)]
@@ -108,6 +109,9 @@ def vtt_special_documents():
            [(3603 * 1000000, 3604 * 1000000, ["x"])])
     yield (f"WEBVTT\n\n{a} --> {b}\nfirst\n\n01:00:03.000 --> 01:00:04.000\n\nNOTE\nover two lines\n\n01:00:05.000 --> 01:00:06.000\nlast\n",
            [(s, e, ["first"]), (3605 * 1000000, 3606 * 1000000, ["last"])])
+    # the arrow of a timing line is set off by blanks OR tabs (one or more)
+    yield ("WEBVTT\n\n00:01.000\t-->\t00:02.000\nfirst\n\n00:03.250 \t--> \t 00:04.000 line:0\nsecond\n\n00:05.000  -->  00:06.000\nthird\n",
+           [(1000000, 2000000, ["first"]), (3250000, 4000000, ["second"]), (5000000, 6000000, ["third"])])
     # a cue that starts at the very beginning of the programme (instant zero is an instant like any other, also under strict
     # timing checks), and one that starts and ends there
     yield ("WEBVTT\n\n00:00.000 --> 00:02.000\nfrom the start\n\n00:00:02.000 --> 00:00:04.000\nx\n",
